@@ -437,7 +437,7 @@ fn run(ctx: &mut Ctx) {
         }
     }
     let mut rng = ctx.rng(1);
-    let n = ctx.share(tier.pick(30_000, 600_000));
+    let n = ctx.share(tier.pick(400_000, 4_000_000));
     for k in 0..n {
         let text = {
             let mut g = TextGen::new(&mut rng);
